@@ -29,3 +29,34 @@ Fixpoint mism_from (univ : list (bytes * bytes)) (i : nat) (cs : list case) : li
                 end
   end.
 Definition mismatches_with (univ : list (bytes * bytes)) (cs : list case) := mism_from univ 0 cs.
+
+(* ---------------------------------------------------------------- text level (appended)
+   CaseNT / CaseND: one statement TEXT on one store, run by the implementation once as built
+   (narrowed access path) and once with the scan node replaced by a full scan (Corr/C02Text.v, codes
+   there: 1 = the whole text twin differs from the narrowed run, 2 = the narrowed run differs from
+   the implementation's own full-scan run).  The case files define their list with the type
+   [xcase]; the tree-level cases above are embedded under their old name. *)
+From KV Require Corr.C03Text Corr.C02Text.
+
+Inductive xcase :=
+  | XBase (c : case)
+  | CaseNT (t : C02Text.ntcase)
+  | CaseND (t : C02Text.ndcase).
+Definition XCase (e : expr) (r : region) : xcase := XBase (Case e r).
+
+Definition xcheck_case (univ : list (bytes * bytes)) (c : xcase) : nat :=
+  match c with
+  | XBase b => check_case univ b
+  | CaseNT t => C02Text.check_nt t
+  | CaseND t => C02Text.check_nd t
+  end.
+
+Fixpoint xmism_from (univ : list (bytes * bytes)) (i : nat) (cs : list xcase) : list (nat * nat) :=
+  match cs with
+  | [] => []
+  | c :: cs' => match xcheck_case univ c with
+                | 0 => xmism_from univ (S i) cs'
+                | k => (i, k) :: xmism_from univ (S i) cs'
+                end
+  end.
+Definition xmismatches_with (univ : list (bytes * bytes)) (cs : list xcase) := xmism_from univ 0 cs.
